@@ -57,6 +57,7 @@ def _check_main(run, P):
 
     reads_writes(run, P, classes)
     run.do(_callee_lookup, run, P)
+    run.do(fixed_names, run, P, classes)
 
     run.do(_mapper_config, run, P)
     run.do(_written_whole, run, P, classes)
@@ -104,6 +105,38 @@ def reads_writes(run, P, classes, r_reads="C08.reads", r_writes="C08.writes"):
                             f"{K.name}.get_written_variables() does not name "
                             f"({sorted(W)})"))
 
+
+
+def fixed_names(run, P, classes, rule="C08.reads"):
+    """A statement handler touches the store only under names the statement
+    carries: no variable is read or written under a name fixed in the handler."""
+    interp = P.cls(sm.INTERP)
+    n = 0
+    for K in classes:
+        f = P.method(interp, sm.exec_method_name(P, K))
+        if f is None:
+            continue
+        units = [f] + list(f.nested.values())
+        hits = []
+        for u in units:
+            for x in ast.walk(u.node):
+                if isinstance(x, ast.Subscript) and dotted(x.value) == "self.context" \
+                        and isinstance(x.slice, (ast.Constant, ast.JoinedStr, ast.BinOp)) \
+                        and not any(isinstance(y, ast.Name) for y in ast.walk(x.slice)):
+                    hits.append(x)
+                if isinstance(x, ast.Call) and isinstance(x.func, ast.Attribute) \
+                        and dotted(x.func.value) == "self.context" and x.args \
+                        and isinstance(x.args[0], ast.Constant) and isinstance(x.args[0].value, str):
+                    hits.append(x)
+        n += 1
+        run.ob(rule, f, hits[0] if hits else f.node, not hits,
+               construct=f"{K.name}: {f.name} touches no store entry under a fixed name"
+                         + (f" (found {norm(hits[0], 40)})" if hits else ""),
+               why="a variable the handler looks up by itself ('<t>' for a message, say) is in "
+                   "no declared set: the builder gives the statement no edge to the statements "
+                   "that assign it, and what is read depends on the order chosen")
+    if n < 5:
+        raise AnalysisError("fixed_names: statement handlers not found")
 
 
 def _callee_lookup(run, P, rule="C08.reads"):
